@@ -36,6 +36,7 @@ try:
                     print("  ", name, pid, row[pid], "|", " / ".join(err)[:600], flush=True)
         finally:
             subprocess.run(["git", "-C", "/repo", "checkout", "--", "."])
+            subprocess.run(["git", "-C", "/repo", "clean", "-fdq"])        # files a patch added
         res[name] = row
         print(name, "alarms:", [p for p, v in row.items() if v != "ok"], flush=True)
 finally:
